@@ -73,6 +73,22 @@ def build_harness(wd, race=False, tags="verif"):
     if race:
         cmd.append("-race")
     cmd.append("./cmd/vh")
+    if os.environ.get("VERIF_COVER") and not race:
+        # development aid (not used by any registered command): statement coverage of the library by the harness.  Packages of
+        # a replaced module are not instrumented, so the harness is built INSIDE a scratch copy of the library's module.
+        cr = os.path.join(wd, "covrepo")
+        if not os.path.exists(cr):
+            shutil.copytree(REPO, cr, ignore=shutil.ignore_patterns(".git", "_examples", "cmd"))
+            hz = os.path.join(cr, "zzharness")
+            shutil.copytree(HARNESS, hz, ignore=shutil.ignore_patterns("go.mod", "go.sum"))
+            for root, _d, files in os.walk(hz):
+                for fn in files:
+                    if fn.endswith(".go"):
+                        fp = os.path.join(root, fn)
+                        txt = open(fp).read().replace('"verifharness/', '"github.com/alecthomas/participle/v2/zzharness/')
+                        open(fp, "w").write(txt)
+        cmd = ["go", "build", "-tags", tags, "-cover", "-coverpkg=./...", "-o", out, "./zzharness/cmd/vh"]
+        src = cr
     p = subprocess.run(cmd, cwd=src, env=GOENV, stdout=subprocess.PIPE, stderr=subprocess.STDOUT)
     if p.returncode != 0:
         raise Infra("harness does not build against %s:\n%s" % (REPO, p.stdout.decode("utf8", "replace")[-4000:]))
